@@ -326,6 +326,9 @@ static void run_op(std::string const& line)
     } else if (op == "cpobj") {
       if (oko(A(0)) && oko(A(1)) && objs[A(0)] && !objs[A(1)]) { DW const& src = *objs[A(0)]; objs[A(1)] = std::make_unique<DW>(src); }
       else skip = true;
+    } else if (op == "cpobjn") {         // copy from a NON-const lvalue: deathwatched's forwarding constructor template is chosen
+      if (oko(A(0)) && oko(A(1)) && objs[A(0)] && !objs[A(1)]) { DW& src = *objs[A(0)]; objs[A(1)] = std::make_unique<DW>(src); }
+      else skip = true;
     } else if (op == "mvobj") {
       if (oko(A(0)) && oko(A(1)) && objs[A(0)] && !objs[A(1)]) objs[A(1)] = std::make_unique<DW>(std::move(*objs[A(0)]));
       else skip = true;
